@@ -576,6 +576,7 @@ func checkC05(c *Check) {
 	c05OverrideDirective(c, "R14")
 	c13NoFrozenClock(c, "R15", []string{"internal/target/remote", "internal/smtpconn", "internal/smtpconn/pool", "framework/dns", "framework/future"})
 	c13NotFoundIsNXDomainOnly(c, "R16")
+	c13PreparedInTheSameAttempt(c, "R17")
 }
 
 // R9: a policy's per-message object outlives one destination: the remote target calls PrepareDomain once per
